@@ -90,6 +90,10 @@ func replayOne(i int, raw json.RawMessage, seed int64, mode string) hx.Result {
 	}
 	nt := x.class()
 	if d != nil {
+		if mode != "" {
+			// the same scenario judged through another entry point of the library is another finding
+			d.key = "X06/" + mode + strings.TrimPrefix(d.key, "X06")
+		}
 		return hx.Result{I: i, OK: false, NT: nt, Key: d.key, Want: d.want, Got: d.got,
 			What: fmt.Sprintf("%s\nroom version %s, %d servers%s; events beyond the creation prefix: %s\nsteps: %s",
 				d.what, r.Ver, r.N, x.byzNote(), describeEvents(r.Events, 6), x.describeSteps())}
